@@ -7,6 +7,7 @@ import (
 	"path/filepath"
 	"sort"
 	"strings"
+	"syscall"
 
 	"verif/harness/core"
 )
@@ -48,11 +49,17 @@ func genTree(r *rand.Rand) []treeEntry {
 				entries = append(entries, treeEntry{Path: p, Kind: "file"})
 			}
 		default:
-			p := filepath.Join(parent, []string{"link.go", "linkdir", "dangling.go", "ln"}[r.Intn(4)])
+			// symlinks and FIFOs, also under names that would prune a directory (they are not directories: their
+			// siblings must not be affected) and under editor lock-file names
+			p := filepath.Join(parent, []string{"link.go", "linkdir", "dangling.go", "ln", "vendor", "testdata", ".hidden", "_x", ".#lock.go", "a_first.go"}[r.Intn(10)])
 			if seen[p] {
 				continue
 			}
 			seen[p] = true
+			if r.Intn(4) == 0 {
+				entries = append(entries, treeEntry{Path: p, Kind: "fifo"})
+				continue
+			}
 			var target string
 			switch filepath.Base(p) {
 			case "dangling.go":
@@ -159,7 +166,15 @@ func genArgs(r *rand.Rand, entries []treeEntry, root string) ([]string, string) 
 			args, forms = append(args, "./..."), append(forms, "dot-ellipsis")
 		case k <= 4 && len(dirs) > 0:
 			d := dirs[r.Intn(len(dirs))]
-			switch r.Intn(5) {
+			switch r.Intn(9) {
+			case 5:
+				args, forms = append(args, filepath.Join(root, d)+"/."), append(forms, "abs-dir/.")
+			case 6:
+				args, forms = append(args, filepath.Join(root, d)+"/../"+filepath.Base(d)+"/..."), append(forms, "abs-dir/../dir/...")
+			case 7:
+				args, forms = append(args, root+"/./"+d), append(forms, "abs/./dir")
+			case 8:
+				args, forms = append(args, d+"/./"), append(forms, "dir/./")
 			case 0:
 				args, forms = append(args, d+"/..."), append(forms, "dir/...")
 			case 1:
@@ -173,8 +188,15 @@ func genArgs(r *rand.Rand, entries []treeEntry, root string) ([]string, string) 
 			}
 		case k <= 9 && len(files) > 0:
 			f := files[r.Intn(len(files))]
-			if r.Intn(4) == 0 {
+			if k := r.Intn(8); k == 0 {
 				args, forms = append(args, filepath.Join(root, f)), append(forms, "abs-file")
+			} else if k == 1 {
+				args, forms = append(args, root+"/./"+f), append(forms, "abs/./file")
+			} else if k == 2 && filepath.Dir(f) != "." {
+				dd := filepath.Dir(f)
+				args, forms = append(args, root+"//"+dd+"/../"+filepath.Base(dd)+"/"+filepath.Base(f)), append(forms, "abs//dir/../dir/file")
+			} else if k == 3 {
+				args, forms = append(args, "./"+filepath.Dir(f)+"/./"+filepath.Base(f)), append(forms, "./dir/./file")
 			} else {
 				args, forms = append(args, f), append(forms, "file")
 			}
@@ -194,8 +216,8 @@ func init() {
 	core.Register(&core.Prop{
 		ID:    "C15",
 		Level: "exploration",
-		Rule: "cases: random directory trees (5-45 entries, depth<=5: directories named vendor/testdata/.x/_x/x.go and look-alikes at any depth, hidden and underscore files, non-Go files, symlinks to files and directories, dangling symlinks) " +
-			"x argument lists of 1-5 arguments (relative, absolute, '.', './...', 'dir/...', 'dir...', './dir/', overlapping, duplicated, explicit files inside excluded directories, explicit symlinks and non-Go files). Every .go file holds one site of a non-idempotent patch. " +
+		Rule: "cases: random directory trees (5-45 entries, depth<=5: directories named vendor/testdata/.x/_x/x.go and look-alikes at any depth, hidden and underscore files, non-Go files, symlinks to files and directories, dangling symlinks, FIFOs; symlinks and FIFOs also under directory-pruning names (vendor, testdata, .x, _x) and lock-file names) " +
+			"x argument lists of 1-5 arguments (relative, absolute, '.', './...', 'dir/...', 'dir...', './dir/', non-canonical relative and absolute spellings (/./, //, /../, trailing /.), overlapping, duplicated, explicit files inside excluded directories, explicit symlinks and non-Go files). Every .go file holds one site of a non-idempotent patch. " +
 			"Three observations must equal the model (a transcription of the statement): (1) bytes: the number of times each file was rewritten, read off the file; (2) -v log lines (patched/skipped) and their order; " +
 			"(3) every 5th run the strace event log: each model file opened for reading exactly once and modified exactly once, nothing else under the tree modified, opens in sorted order. " +
 			"non-trivial = the tree has an excluded directory containing Go files or a symlink, or arguments overlap; distinct = (tree shape hash, argument-form word).",
@@ -231,6 +253,9 @@ func runC15(ctx *core.Ctx, idx int) *core.Result {
 		case "symlink":
 			os.MkdirAll(filepath.Dir(p), 0o755)
 			os.Symlink(e.Target, p)
+		case "fifo":
+			os.MkdirAll(filepath.Dir(p), 0o755)
+			syscall.Mkfifo(p, 0o644)
 		}
 	}
 	args, formWord := genArgs(r, entries, root)
